@@ -79,6 +79,19 @@ CHECKS = {
    technique='bounded-exhaustive enumeration of headings x TAS x wind fields (uniform, multilinear, hourly) x altitudes x positions on harness-written ERA5-shaped files, plus all time-stamp sequences on one Weather object; vector-sum reference',
    text='Every lattice call of the real Weather.get_ground_speed is compared with the vector sum of airspeed and exactly-interpolable wind; derived clauses (no wind, tail/head wind, rotation invariance, bounds, refusal outside the domain) are judged separately; one open known finding (component exchange, pinned by an existing test) recognised by its exact signature.',
    note='xarray/scipy interpolation trusted for multilinear fields; lattice only', ref='DESIGN.md §4 C16'),
+
+ 'C03': dict(cat='exploration', engine='BEX',
+   technique='bounded-exhaustive enumeration of field-set shapes (6 dimension combinations x 5 dtypes x required/optional) x all species subsets with gaps x unset patterns x lengths x file layouts x read modes with an independent field-by-field comparison',
+   text='Every case of seven complete product sub-lattices is stored with the real TrajectoryStore (single file, associated files, mapped, in-memory then save) and read back in-session, after reopen and after an append session; every field is compared by independent code (never Container.__eq__). One open known finding (unset optional strings read back empty, pinned by an existing test).',
+   note='zero-length trajectories, per-point strings and values equal to the NetCDF fill value excluded (DESIGN section 5)', ref='DESIGN.md §4 C03'),
+ 'C14': dict(cat='exploration', engine='BEX',
+   technique='bounded-exhaustive enumeration of filter/query parameter lattice (all legal and illegal spatial mixes, numeric bounds, dates, every-nth, limit/offset, sampling, 8 usage protocols incl. re-execution and interleaved generators) on a generated and the shipped database against a Python predicate over raw tables',
+   text='Every enumerated query object is executed on the real Database and compared with a Python evaluation of the same predicate over rows fetched with plain SQL: result set, departure order, slices, counts, frequent routes, sample subset/size band, value semantics under repeated to_sql()/execution.',
+   note='sqlite3 incl. R-tree trusted; sampling judged by a 6-sigma band and an all-or-nothing unit test', ref='DESIGN.md §4 C14'),
+ 'C18': dict(cat='model_checking', engine='HIST',
+   technique='enumeration of all histories of valid loads / each kind of failing load / reset / get / proxy read / mutation attempts to depth 4 (thorough 5) plus BFS deduplicated by reference-machine state, against a three-state reference machine with an independent overlay computation',
+   text='All 16^0..16^4 (thorough 16^5 and 20^4) event histories are executed on the real Config singleton and every step outcome plus a full observation (get, proxy read, effective values at three nesting paths) is compared with the reference machine; violating histories are re-executed in a pristine process before being reported.',
+   note='in-process sandbox reset between histories is validated by pristine re-execution of every violating history', ref='DESIGN.md §4 C18'),
 }
 NOT_YET = {}
 
